@@ -254,6 +254,8 @@ impl<U: User, E: Engine<U>> Stream<U, E> {
     }
 
     pub fn mplus(stream: Stream<U, E>, lazy: LazyStream<U, E>) -> Stream<U, E> {
+        #[cfg(terohuttunen_proto_vulcan_verif)]
+        crate::verif::on_alg(crate::verif::OP_MPLUS, &stream);
         match stream {
             Stream::Empty => Stream::lazy(lazy),
             Stream::Lazy(lazy_hat) => Stream::lazy_mplus(lazy, lazy_hat),
@@ -263,6 +265,8 @@ impl<U: User, E: Engine<U>> Stream<U, E> {
     }
 
     pub fn bind(stream: Stream<U, E>, goal: Goal<U, E>) -> Stream<U, E> {
+        #[cfg(terohuttunen_proto_vulcan_verif)]
+        crate::verif::on_alg(crate::verif::OP_BIND, &stream);
         if goal.is_succeed() {
             stream
         } else if goal.is_fail() {
@@ -289,6 +293,8 @@ impl<U: User, E: Engine<U>> Stream<U, E> {
     }
 
     pub fn mplus_dfs(stream: Stream<U, E>, lazy: LazyStream<U, E>) -> Stream<U, E> {
+        #[cfg(terohuttunen_proto_vulcan_verif)]
+        crate::verif::on_alg(crate::verif::OP_MPLUS_DFS, &stream);
         match stream {
             Stream::Empty => Stream::lazy(lazy),
             Stream::Lazy(lazy_hat) => Stream::lazy_mplus_dfs(lazy_hat, lazy),
@@ -300,6 +306,8 @@ impl<U: User, E: Engine<U>> Stream<U, E> {
     }
 
     pub fn bind_dfs(stream: Stream<U, E>, goal: DFSGoal<U, E>) -> Stream<U, E> {
+        #[cfg(terohuttunen_proto_vulcan_verif)]
+        crate::verif::on_alg(crate::verif::OP_BIND_DFS, &stream);
         if goal.is_succeed() {
             stream
         } else if goal.is_fail() {
@@ -388,6 +396,8 @@ where
     }
 
     fn step(&self, solver: &Solver<U, Self>, lazy: Lazy<U, Self>) -> Stream<U, Self> {
+        #[cfg(terohuttunen_proto_vulcan_verif)]
+        crate::verif::on_step(&lazy);
         match lazy {
             Lazy::MPlus(s1, s2) => {
                 let stream = self.step(solver, *s1.0);
